@@ -1499,7 +1499,7 @@ static const struct wtype table[] = {
                                       { { "id3v2_encaps.sub", NULL, true, false, false, K_BLOCK, F_HOLD, NULL, in_id3e_sub } } },    /* ---- second bank (selected when the two top bits of the configuration byte are set): index 33 + ((type byte * 11) & 15) ---- */
     { upipe_grid_mgr_alloc,           { "grid", NULL, false, false, false, K_NONE, F_UCLOCK, NULL, NULL, ctl_grid }, 2,
                                       { { "grid.in", alloc_grid_in, true, false, true, K_ANY, F_HOLD | F_PUMP, NULL, NULL, ctl_attach, 0, KM(K_PIC) | KM(K_SOUND) },
-                                        { "grid.out", alloc_grid_out, true, true, true, K_VOID, F_ATTRMIX | F_MULTI, NULL, NULL, ctl_grid_out } } },
+                                        { "grid.out", alloc_grid_out, true, true, true, K_VOID, F_ATTRMIX | F_MULTI | F_PICSIZE, NULL, NULL, ctl_grid_out } } },
     { upipe_rtp_pcm_pack_mgr_alloc,   { "rtp_pcm_pack", NULL, true, true, true, K_SOUND, F_HOLD | F_SELFHOLD | F_MULTI | F_ATTRMIX, def_pcm_pack, NULL, ctl_pcm_pack }, 0 },
     { upipe_rtp_pcm_unpack_mgr_alloc, { "rtp_pcm_unpack", NULL, true, true, true, K_BLOCK, F_HOLD | F_SELFHOLD | F_ORDER, def_pcm_unpack }, 0 },
     { upipe_stream_switcher_mgr_alloc,{ "stream_switcher", NULL, false, true, true, K_NONE, 0 }, 1,
@@ -2150,6 +2150,28 @@ static int run_once(const uint8_t *tp_, size_t len, struct vp_report *rep, unsig
                     if (!c->ret && node_alive(c, m)) do_input(c, m, 0, 0);
                 }
             }
+        }
+    }
+
+    /* grid: in three quarters of the cases an output is pointed at an input and both are defined up front (the operations are then spent
+     * on pictures, reference buffers and definition changes of an input that holds pictures) */
+    if (have_main && !c->ret && !strcmp(m->sp->name, "grid")) {
+        uint8_t ps2 = (uint8_t)(cfgb * 29 + 7);
+        struct node *gin = NULL, *gout = NULL; int gi = 0;
+        for (int k = 0; k < NSUB; k++) {
+            struct node *s = &c->n[N_SUB0 + k];
+            if (!node_alive(c, s) || !s->held) continue;
+            if (s->sk == 0 && !gin) { gin = s; gi = k; }
+            if (s->sk == 1 && !gout) gout = s;
+        }
+        if (gin && gout && (ps2 & 0x30)) {
+            char what[128] = "", w2[192];
+            ctl_grid_out(c, gout, (uint8_t)(gi << 2), what, sizeof what);
+            snprintf(w2, sizeof w2, "%s.%s   [prelude]", node_name(c, gout), what);
+            R("  %s\n", w2);
+            end_op(c, w2);
+            if (!c->ret && node_alive(c, gin)) do_set_flow_def(c, gin, 0, "   [prelude]");
+            if (!c->ret && node_alive(c, gout)) do_set_flow_def(c, gout, 0, "   [prelude]");
         }
     }
 
